@@ -41,6 +41,27 @@ def cmd_candidate_table(g, probes):
     return table
 
 
+def longest_word(resolver, table):
+    """length of the longest word a within-word expression spells without repeating a state"""
+    best = 0
+    for m in resolver.sub_autos:
+        def dfs(q, seen, acc):
+            nonlocal best
+            best = max(best, acc)
+            for key, t in m.trans[q].items():
+                if t in seen:
+                    continue
+                if key[0] == 'lit':
+                    ln = len(key[1])
+                elif key[0] == 'cmd':
+                    ln = max([len(c) for c in table.get(key[1], [])] + [0])
+                else:
+                    ln = 1
+                dfs(t, seen | {t}, acc + ln)
+        dfs(m.start, {m.start}, 0)
+    return best
+
+
 def vocabulary(g, probes):
     v = set()
     for e in list(g['variants']) + [d[2] for d in g['defs']]:
@@ -369,7 +390,7 @@ def _analyse(job, g, probes, text):
         for c in job.get('extra_alphabet', 'z=:'):
             alpha.add(c)
         alphabet = ''.join(sorted(alpha))
-        L = min(max([len(v) for v in vocab] + [1]) + job.get('extra_len', 1), job.get('max_len', 8))
+        L = min(max([len(v) for v in vocab] + [1, longest_word(resolver, table)]) + job.get('extra_len', 1), job.get('max_len', 12))
         res['bounds'] = {'K': job['K'], 'L': L, 'alphabet': alphabet, 'configs': job['configs']}
         res['status'] = 'ok'
         res['nontrivial'] = R0.n >= 3 or bool(resolver.sub_autos)
